@@ -1,7 +1,7 @@
 ----------------------------- MODULE CommandsMC -----------------------------
 (* Model-checking instances of Commands: constants that a .cfg cannot hold. *)
 EXTENDS Commands
-AllFams == {"ali", "trn", "ctm", "tg", "er", "sub", "mom", "momr"}
+AllFams == {"ali", "trn", "ctm", "tg", "er", "sub", "subrun", "mom", "momr"}
 \* default prefix/suffix, non-default prefix, non-default prefix AND suffix
 NamingsAll == {[pre |-> <<>>, suf |-> <<".", "p", "t">>],
                [pre |-> <<"p", "_">>, suf |-> <<".", "p", "t">>],
@@ -44,4 +44,8 @@ ErCostsQuick == {<<1, 1, 1>>, <<3, 3, 4>>, <<1, 2, 1>>}
 ErCostsThorough == ErCostsQuick \cup {<<2, 1, 3>>, <<1, 1, 3>>}
 \* reference rows for the length-moment command: <<id, start, end>>; -1 = boundary missing
 MomRefQuick == {<<<<1, 0, 2>>>>, <<<<1, 0, 1>>, <<2, 1, 4>>>>, <<<<2, 0, 3>>, <<1, -1, -1>>>>, <<<<2, 3, 3>>, <<2, 3, 5>>>>}
+\* repeated subset runs: three utterances of 1, 2, 1 frames; criteria selecting {1, 2}, {2, 3}, {1}
+SubRunData3 == <<1, 2, 1>>
+Crit(k, x) == [kind |-> k, num |-> x, den |-> 1]
+SubRunCritsQuick == {Crit("first-n", 2), Crit("last-n", 2), Crit("first-n", 1)}
 =============================================================================
